@@ -4,6 +4,7 @@ package main
 
 import (
 	"encoding/json"
+	"regexp"
 	"flag"
 	"fmt"
 	"os"
@@ -308,6 +309,8 @@ func runCheck(prop string, o *checkOpts) int {
 		}
 		if incon > 0 {
 			fmt.Printf("RESULT property=%s: no violation; %d inconclusive items (see evidence)\n", prop, incon)
+		} else if len(seen) > 0 {
+			fmt.Printf("RESULT property=%s: no unlisted violation; %d known finding(s) reproduced (%d harnesses)\n", prop, len(seen), len(results))
 		} else {
 			fmt.Printf("RESULT property=%s: HOLDS within bounds (%d harnesses)\n", prop, len(results))
 		}
@@ -376,6 +379,10 @@ func renderInputs(vals []exec.ReplayVal) string {
 	return strings.Join(parts, " ")
 }
 
+var findingRe = regexp.MustCompile(`^finding:\s+property=(\S+)\s+site="([^"]+)"\s*(.*)$`)
+
+// loadKnownFindings reads /verif/known_findings.txt: lines `finding: property=<id> site="<harness|site signature>" <text>`.
+// Matching is by exact site signature, so a different violation of the same property is still reported.
 func loadKnownFindings() map[string]string {
 	out := map[string]string{}
 	b, err := os.ReadFile(filepath.Join(verifRoot, "known_findings.txt"))
@@ -383,27 +390,11 @@ func loadKnownFindings() map[string]string {
 		return out
 	}
 	for _, l := range strings.Split(string(b), "\n") {
-		l = strings.TrimSpace(l)
-		if !strings.HasPrefix(l, "finding:") {
+		m := findingRe.FindStringSubmatch(strings.TrimSpace(l))
+		if m == nil {
 			continue
 		}
-		// finding: property=C02 site=<site> <text>
-		fields := strings.Fields(strings.TrimPrefix(l, "finding:"))
-		var prop, site string
-		var rest []string
-		for _, f := range fields {
-			switch {
-			case strings.HasPrefix(f, "property=") && prop == "":
-				prop = strings.TrimPrefix(f, "property=")
-			case strings.HasPrefix(f, "site=") && site == "":
-				site = strings.TrimPrefix(f, "site=")
-			default:
-				rest = append(rest, f)
-			}
-		}
-		if prop != "" && site != "" {
-			out[prop+" "+strings.ReplaceAll(site, "␣", " ")] = "site=" + site + " " + strings.Join(rest, " ")
-		}
+		out[m[1]+" "+m[2]] = m[3]
 	}
 	return out
 }
